@@ -1,4 +1,5 @@
 """C16 — Reported track parameters: range clause ([-pi, pi] or NaN) and provenance of every reported t."""
+import json
 import math
 import struct
 
@@ -32,6 +33,124 @@ def fconst(t):
 
 def is_uom(callee, method):
     return "uom::si::" in callee and callee.endswith("::" + method)
+
+
+def expand_calls(prog, t, depth=0):
+    """calls of private straight-line workspace functions replaced by their result (arguments substituted), so that a
+    formula reads the same whether it is written inline, in a nested fn or in a module-level helper"""
+    from ..guards import closure_ret
+    from ..terms import _subst_params
+    if not isinstance(t, tuple) or not t or not isinstance(t[0], str):
+        return t
+    o_ = [t[0]]
+    for y in t[1:]:
+        if isinstance(y, tuple) and y and isinstance(y[0], str):
+            o_.append(expand_calls(prog, y, depth))
+        elif isinstance(y, tuple):
+            o_.append(tuple(expand_calls(prog, z, depth) if isinstance(z, tuple) else z for z in y))
+        else:
+            o_.append(y)
+    t = tuple(o_)
+    if t[0] == "call" and depth < 3:
+        h = prog.bodies.get(t[1])
+        if h is not None and h.kind in ("Fn", "AssocFn") and not h.j.get("is_pub") and not h.back_edges() and len(h.reachable()) <= 16 \
+                and not any(h.blocks[b_]["t"]["k"] == "switch" for b_ in h.reachable()) and len(t[2]) == h.argc:
+            try:
+                rets = closure_ret(prog, h)
+            except Exception:
+                rets = []
+            if len(rets) == 1 and not any(x[0] in ("var", "mut", "loopval") for x in walk(rets[0])):
+                return expand_calls(prog, _subst_params(rets[0], t[2]), depth + 1)
+    return t
+
+
+def kepler(prog):
+    """the Kepler mechanism of closest_t as data (role vocabulary E, ECC, MEAN): the residual f and its derivative as they
+    appear (helpers expanded) in the Newton step and the stop criterion, the eccentricity and the mean anomaly, the exits
+    of the iteration and the start values of E"""
+    from .. import accept
+    from ..sym import atom_str
+    out = {}
+    b = prog.body(CLOSEST)
+    an = analysis(prog, b, positions=True)
+    sy = Sym(prog, an, slice_param=99)
+    tm = an.terms
+    lp = set()
+    for tl, hd in b.back_edges():
+        lp |= set(b.natural_loop(tl, hd))
+    subs = [(bb, t) for bb, t in b.calls() if bb in lp and short(cname(t)) == "SubAssign::sub_assign"]
+    if len(subs) != 1 or not lp:
+        return None
+    sbb, st = subs[0]
+    tm._pos = (sbb, "t")
+    e_ref = tm.operand(st["args"][0])
+    while e_ref[0] in ("ref", "deref"):
+        e_ref = e_ref[1]
+    if e_ref[0] not in ("var", "mut"):
+        return None
+    el = e_ref[1]
+
+    def is_E(x):
+        x = x
+        while x[0] in ("ref", "deref"):
+            x = x[1]
+        return x[0] in ("var", "mut") and x[1] == el
+
+    def roleE(x):
+        """reads of the iterate by role"""
+        if not isinstance(x, tuple) or not x or not isinstance(x[0], str):
+            return x
+        if x[0] in ("var", "mut") and x[1] == el:
+            return ("cdef", "E")
+        o_ = [x[0]]
+        for y in x[1:]:
+            if isinstance(y, tuple) and y and isinstance(y[0], str):
+                o_.append(roleE(y))
+            elif isinstance(y, tuple):
+                o_.append(tuple(roleE(z) if isinstance(z, tuple) else z for z in y))
+            else:
+                o_.append(y)
+        return tuple(o_)
+    step_t = roleE(expand_calls(prog, tm.operand(st["args"][1])))
+    # stop criterion: the exit of the loop that is not the exhaustion of the counter
+    exits_t = []
+    for s_ in sorted(lp):
+        for t_ in b.succ(s_):
+            if t_ not in lp and b.blocks[t_]["t"].get("k") != "unreachable":
+                d, rel, vals = an.edge_atom(s_, t_)
+                exits_t.append((roleE(expand_calls(prog, d)), rel, vals))
+    # the residual inside the stop criterion: abs(E - e sin E - M)
+    ecc = mean = None
+    for d, rel, vals in exits_t:
+        for x in walk(d):
+            if x[0] == "call" and short(x[1]).endswith("::abs") and len(x[2]) == 1:
+                r = strip(x[2][0])
+                if r[0] == "call" and short(r[1]) == "Sub::sub" and len(r[2]) == 2:
+                    inner = strip(r[2][0])
+                    if inner[0] == "call" and short(inner[1]) == "Sub::sub" and len(inner[2]) == 2 and strip(inner[2][0]) == ("cdef", "E"):
+                        prod = strip(inner[2][1])
+                        if prod[0] == "call" and short(prod[1]) == "Mul::mul" and len(prod[2]) == 2:
+                            sn = strip(prod[2][1])
+                            if sn[0] == "call" and short(sn[1]).endswith("::sin") and strip(sn[2][0]) == ("cdef", "E"):
+                                ecc, mean = sy.name(prod[2][0]), sy.name(r[2][1])
+    out["ecc"], out["mean"] = ecc, mean
+
+    def al(x):
+        x = abstract_phi(x, "E")
+        if ecc and mean:
+            x = x.replace(mean, "MEAN").replace(ecc, "ECC")
+        return x
+    out["step"] = al(sy.name(step_t))
+    out["exits"] = sorted(sorted(al(atom_str(a)) for a in sy.atoms(d, rel, vals)) for d, rel, vals in exits_t)
+    starts = []
+    for d in tm.defs.whole[el]:
+        ats = []
+        for (dd, rel, vals) in an.atoms_at(d[0]):
+            ats += sy.atoms(dd, rel, vals)
+        gs = sorted(al(atom_str(a)) for a in (accept.simplify(ats, sy.sym_box) or []) if "MEAN" in al(atom_str(a)))
+        starts.append([gs, al(sy.name(sy._def_term(d)))])
+    out["start"] = sorted(starts)
+    return out
 
 
 def abstract_phi(s, name):
@@ -155,6 +274,20 @@ def run(prog, tier, res):
             res.hit(R2)
         else:
             res.violate(R2, acc, "accessor", "Track::%s() does not return the field" % n, prog.body(acc).where())
+
+    # ------------------------------------------------------------------ R4: the Kepler mechanism
+    R4 = res.rule("C16.R4", "closest_t solves the stationarity equation of the distance: M = E - e sin E with e = 4 pi^2 r R / h^2 (r = distance from the helix AXIS), "
+                  "Newton step E -= f/df, stop on |f| < |tolerance|, start at -pi / +pi by the sign of M", 5)
+    from .. import accept as _acc
+    kw = _acc.load_spec("c16.json")["kepler"]
+    kg = kepler(prog) or {}
+    for key_, what in (("ecc", "the eccentricity e = 4 pi^2 r R / h^2 with r measured from the helix axis (x0, y0), as it appears in the residual E - e sin E - M"),
+                       ("mean", "the mean anomaly M = pi + 2 pi n - (phi0 + 2 pi (z - z0)/h - delta)"), ("step", "the Newton step E -= (E - e sin E - M) / (1 - e cos E)"),
+                       ("exits", "the iteration stops on |E - e sin E - M| < |tolerance| or after max_num_iter steps"), ("start", "E starts at -pi for M < 0, else at +pi")):
+        if kg.get(key_) == kw[key_]:
+            res.hit(R4)
+        else:
+            res.violate(R4, CLOSEST, "kepler:%s" % key_, "%s: found %s" % (what, json.dumps(kg.get(key_))[:400]), b.where(), detail={"got": kg.get(key_), "want": kw[key_]})
 
     # ------------------------------------------------------------------ R3
     found = 0
